@@ -256,3 +256,26 @@ fn time_spent_in_before_sleep_does_not_delay_the_timer_that_bounds_the_wait() {
     }
 }
 fn timer_at(el: &EventLoop<'static, Log>, deadline: Instant) -> (Dispatcher<'static, Timer, Log>, calloop::RegistrationToken) { timer(el, 1, deadline) }
+
+#[test]
+fn rearming_to_the_deadline_of_the_first_registration_after_a_reschedule_takes_effect() {
+    // registered for d0; fires and reschedules itself far away; then set_deadline(d0) (the very Instant of the first
+    // registration, now in the past) + update: that arming fires at once, the far-away one is cancelled
+    let mut el: EventLoop<'static, Log> = EventLoop::try_new().unwrap();
+    let d0 = Instant::now() + Duration::from_millis(20);
+    let far = d0 + Duration::from_secs(3600);
+    let d = Dispatcher::new(Timer::from_deadline(d0), move |dl, _, log: &mut Log| {
+        log.push((1, dl, Instant::now()));
+        if log.len() == 1 { TimeoutAction::ToInstant(far) } else { TimeoutAction::Drop }
+    });
+    let tok = el.handle().register_dispatcher(d.clone()).unwrap();
+    let mut log = Log::default();
+    run_for(&mut el, &mut log, Duration::from_millis(60));
+    assert_eq!(log.len(), 1);
+    d.as_source_mut().set_deadline(d0);
+    el.handle().update(&tok).unwrap();
+    run_for(&mut el, &mut log, Duration::from_millis(60));
+    assert_eq!(log.len(), 2, "the arming made by set_deadline + update never fired");
+    assert!(log[1].1 == d0);
+    check_never_early(&log);
+}
